@@ -16,6 +16,9 @@ Verdict(c) ==
   \* (the block grammar Accepts / RuleThenBlank of SampleDoc is a property of the
   \*  generator model only: real samples may hold extra blank lines, e.g. for a
   \*  whitespace-only description, which the statement does not forbid)
+  \* the commented alias suggestion `# "old": "rule:new"` printed for a renamed policy is a rule line too once
+  \* the leading "# " goes: it never names a policy that has a default of its own (it would replace it)
+  /\ \A i \in 1..Len(c.aliases) : \A j \in 1..Len(c.defaults) : c.aliases[i] # c.defaults[j].name
   /\ c.yaml_whole_empty = 1                       \* as written the file overrides nothing
   /\ c.yaml_uncommented_ok = 1 /\ PairSet(c.uncommented) = Pairs(c.defaults) /\ Len(c.uncommented) = Len(c.defaults)
   /\ c.rules_load_ok = 1                          \* and it is a policy file the library loads
